@@ -14,6 +14,18 @@ for c in m['checks']:
     cov = e['coverage']
     n_assumed = sum(1 for a in e.get('assumptions', []) if a.startswith('assumed contract') or a.startswith('axiom'))
     print(f"| {pid} | {props[pid]} | {e['level']} | {len(cov.get('functions_under_contract', []))} | {cov.get('obligations')} ({cov.get('discharged')}) | {n_assumed} | {e['wall_s']:.0f} |")
+import glob, re
+files = sorted(glob.glob('/repo/*/zz_contracts*_verif.go') + glob.glob('/repo/*/*/zz_contracts*_verif.go'))
+kw = {'assume func': r'^//@ assume func', 'opaque': r'^//@\s+opaque', 'assumes': r'^//@\s+assumes ', 'trustpre': r'^//@\s+trustpre ', 'noframe': r'^//@\s+noframe', 'maypanic': r'^//@\s+maypanic', 'axiom': r'^//@ axiom', 'verified func': r'^//@ func '}
+cnt = {k: 0 for k in kw}
+for f in files:
+    for line in open(f):
+        for k, rx in kw.items():
+            if re.search(rx, line): cnt[k] += 1
+specs = glob.glob('/verif/govc/trusted/*.spec')
+nspec = sum(1 for f in specs for line in open(f) if re.search(r'^//@ (assume )?func ', line))
+print()
+print('Mechanical scan of the contract files in /repo (%d files): ' % len(files) + ', '.join('%d `%s`' % (v, k) for k, v in cnt.items()) + '; %d assumed contracts of dependencies in %d trusted spec files. Each of these is echoed, per property, into the evidence of the checks that use it.' % (nspec, len(specs)))
 print()
 print('Not claimed:')
 for n in m.get('not_applicable', []):
